@@ -54,12 +54,14 @@ type c08Op struct {
 	Op    string      `json:"op"`
 	Batch []c08Change `json:"batch"`
 	To    int64       `json:"to"`
+	Crash bool        `json:"crash"` // the node dies between the app's Commit and store.Save; the handshake recovers
 }
 
 type c08Sched struct {
 	Genesis []c08Change `json:"genesis"`
 	IH      int64       `json:"ih"`   // real initial height
 	Mode    string      `json:"mode"` // genesis | bootstrap
+	Discard bool        `json:"discard"` // StoreOptions.DiscardABCIResponses
 	Ops     []c08Op     `json:"ops"`
 }
 
@@ -141,6 +143,7 @@ type c08Run struct {
 	db    dbm.DB
 	store Store
 	st    State
+	disc  bool // StoreOptions.DiscardABCIResponses
 	base  int64
 	lo    int64 // lowest height ever written
 	top   int64 // highest height with a set in force
@@ -216,7 +219,7 @@ func (r *c08Run) genesis(gen []c08Change, ih int64, mode string) bool {
 		return false
 	}
 	r.db = dbm.NewMemDB()
-	r.store = NewStore(r.db, StoreOptions{})
+	r.store = NewStore(r.db, StoreOptions{DiscardABCIResponses: r.disc})
 	r.st = st
 	if mode == "bootstrap" {
 		// the state a state-syncing node is handed two blocks later (statesync/stateprovider.go State())
@@ -242,16 +245,15 @@ func (r *c08Run) genesis(gen []c08Change, ih int64, mode string) bool {
 	return err == nil
 }
 
-// the real updateState for the next block with the given validator updates; no save
-func (r *c08Run) advance(batch []c08Change) bool {
+// the real updateState for the next block with the given responses and validator updates; no save
+func (r *c08Run) advanceWith(resp *tmstate.ABCIResponses, updates []*types.Validator) bool {
 	height := r.st.LastBlockHeight + 1
 	if r.st.LastBlockHeight == 0 {
 		height = r.st.InitialHeight
 	}
 	hdr := &types.Header{ChainID: r.st.ChainID, Height: height, Time: r.st.LastBlockTime.Add(time.Second)}
-	resp := &tmstate.ABCIResponses{BeginBlock: &abci.ResponseBeginBlock{}, EndBlock: &abci.ResponseEndBlock{}}
 	bid := types.BlockID{Hash: bytes.Repeat([]byte{byte(height)}, 32)}
-	ns, err := updateState(r.st, bid, hdr, resp, r.pool.vals(batch))
+	ns, err := updateState(r.st, bid, hdr, resp, updates)
 	if err != nil {
 		return false
 	}
@@ -259,33 +261,111 @@ func (r *c08Run) advance(batch []c08Change) bool {
 	return true
 }
 
-func (r *c08Run) apply(batch []c08Change) {
+func (r *c08Run) advance(batch []c08Change) bool {
+	resp := &tmstate.ABCIResponses{BeginBlock: &abci.ResponseBeginBlock{}, EndBlock: &abci.ResponseEndBlock{}}
+	return r.advanceWith(resp, r.pool.vals(batch))
+}
+
+// the ABCI responses an application would return for a block with this batch of validator
+// updates (and, now and then, a consensus-parameter update)
+func (r *c08Run) responses(height int64, batch []c08Change, cpu int64) *tmstate.ABCIResponses {
+	ev := []abci.Event{{Type: "verif", Attributes: []abci.EventAttribute{{Key: []byte("h"), Value: []byte(strconv.FormatInt(height, 10))}}}}
+	resp := &tmstate.ABCIResponses{
+		DeliverTxs: []*abci.ResponseDeliverTx{{Code: 0, Data: []byte{byte(height)}, Events: ev}, {Code: 1, Log: "x"}},
+		BeginBlock: &abci.ResponseBeginBlock{Events: ev},
+		EndBlock:   &abci.ResponseEndBlock{Events: ev},
+	}
+	for _, v := range r.pool.vals(batch) {
+		resp.EndBlock.ValidatorUpdates = append(resp.EndBlock.ValidatorUpdates, types.TM2PB.ValidatorUpdate(v))
+	}
+	if cpu > 0 {
+		resp.EndBlock.ConsensusParamUpdates = &abci.ConsensusParams{Block: &abci.BlockParams{MaxBytes: cpu, MaxGas: -1}}
+	}
+	return resp
+}
+
+func (r *c08Run) changesOf(vus []abci.ValidatorUpdate) ([]c08Change, []*types.Validator, string) {
+	out := []c08Change{}
+	vals, err := types.PB2TM.ValidatorUpdates(vus)
+	if err != nil {
+		return out, nil, "error"
+	}
+	for _, v := range vals {
+		id, ok := r.pool.ids[string(v.Address)]
+		if !ok {
+			id = 99
+		}
+		out = append(out, c08Change{A: id, P: v.VotingPower})
+	}
+	return out, vals, "none"
+}
+
+func c08CPU(resp *tmstate.ABCIResponses) int64 {
+	if resp == nil || resp.EndBlock == nil || resp.EndBlock.ConsensusParamUpdates == nil || resp.EndBlock.ConsensusParamUpdates.Block == nil {
+		return 0
+	}
+	return resp.EndBlock.ConsensusParamUpdates.Block.MaxBytes
+}
+
+// one block through the real persistence path (BlockExecutor.ApplyBlock order):
+// SaveABCIResponses(height, responses); then either updateState on the responses in memory,
+// or - crash between the application's Commit and Save - the handshake's recovery
+// (consensus/replay.go): LoadLastABCIResponse(height), updateState on what it returns; then Save.
+// The recovery copy is read back and logged after every SaveABCIResponses.
+func (r *c08Run) apply(batch []c08Change, crash bool, cpu int64) {
 	height := r.st.LastBlockHeight + 1
 	if r.st.LastBlockHeight == 0 {
 		height = r.st.InitialHeight
 	}
-	cls := "none"
+	cls, lerr := "none", "none"
+	loaded, used := []c08Change{}, c08Changes(batch)
+	lcpu := int64(0)
 	func() {
 		defer func() {
 			if x := recover(); x != nil {
 				cls = "panic"
 			}
 		}()
-		if !r.advance(batch) {
+		resp := r.responses(height, batch, cpu)
+		if err := r.store.SaveABCIResponses(height, resp); err != nil {
+			cls = "error"
+			return
+		}
+		last, err := r.store.LoadLastABCIResponse(height)
+		var lvals []*types.Validator
+		if err != nil || last == nil || last.EndBlock == nil {
+			lerr = "error"
+		} else {
+			loaded, lvals, lerr = r.changesOf(last.EndBlock.ValidatorUpdates)
+			lcpu = c08CPU(last)
+		}
+		ok := false
+		if crash {
+			if lerr != "none" {
+				cls = "error"
+				return
+			}
+			used = loaded
+			ok = r.advanceWith(last, lvals)
+		} else {
+			ok = r.advanceWith(resp, r.pool.vals(batch))
+		}
+		if !ok {
 			cls = "error"
 		}
 	}()
-	if cls != "none" {
-		r.w.emit(c08M{"ev": "Apply", "run": r.run, "height": height, "batch": c08Changes(batch), "err": cls,
-			"h": r.st.LastBlockHeight, "lhc": r.st.LastHeightValidatorsChanged, "vals": r.pool.view(r.st.Validators),
-			"nvals": r.pool.view(r.st.NextValidators), "base": r.base, "db": r.records(), "loads": r.loads()})
-		return
+	ev := c08M{"ev": "Apply", "run": r.run, "height": height, "batch": c08Changes(batch), "crash": crash, "discard": r.disc,
+		"cpu": cpu, "lcpu": lcpu, "loaded": loaded, "lerr": lerr, "used": used, "pcpu": int64(0)}
+	if cls == "none" {
+		cls = c08ErrClass(r.store.Save(r.st))
+		r.top = height + 2
 	}
-	err := r.store.Save(r.st)
-	r.top = height + 2
-	r.w.emit(c08M{"ev": "Apply", "run": r.run, "height": height, "batch": c08Changes(batch), "err": c08ErrClass(err),
-		"h": r.st.LastBlockHeight, "lhc": r.st.LastHeightValidatorsChanged, "vals": r.pool.view(r.st.Validators),
-		"nvals": r.pool.view(r.st.NextValidators), "base": r.base, "db": r.records(), "loads": r.loads()})
+	ev["err"] = cls
+	ev["h"], ev["lhc"] = r.st.LastBlockHeight, r.st.LastHeightValidatorsChanged
+	ev["vals"], ev["nvals"] = r.pool.view(r.st.Validators), r.pool.view(r.st.NextValidators)
+	ev["pcpu"] = r.st.ConsensusParams.Block.MaxBytes
+	ev["base"], ev["db"], ev["loads"] = r.base, r.records(), r.loads()
+	r.w.emit(ev)
 }
 
 func (r *c08Run) prune(to int64) {
@@ -332,15 +412,16 @@ func TestVerifC08Store(t *testing.T) {
 	run := 0
 	for _, s := range in.Scheds {
 		run++
-		w.emit(c08M{"ev": "Reset", "run": run, "kind": "store", "ckpt": int64(valSetCheckpointInterval), "ih": s.IH, "mode": s.Mode})
-		r := &c08Run{w: w, run: run, pool: pool}
+		w.emit(c08M{"ev": "Reset", "run": run, "kind": "store", "ckpt": int64(valSetCheckpointInterval), "ih": s.IH, "mode": s.Mode,
+			"discard": s.Discard})
+		r := &c08Run{w: w, run: run, pool: pool, disc: s.Discard}
 		if !r.genesis(s.Genesis, s.IH, s.Mode) {
 			continue
 		}
 		for _, op := range s.Ops {
 			switch op.Op {
 			case "Apply":
-				r.apply(op.Batch)
+				r.apply(op.Batch, op.Crash, 0)
 			case "Prune":
 				r.prune(op.To)
 			}
@@ -380,8 +461,9 @@ func c08RandomStore(w *c08Writer, run int, pool *c08Pool, rng *rand.Rand) {
 	for _, a := range rng.Perm(npool)[:1+rng.Intn(3)] {
 		gen = append(gen, c08Change{A: a + 1, P: c08StorePowers[rng.Intn(len(c08StorePowers))]})
 	}
-	w.emit(c08M{"ev": "Reset", "run": run, "kind": "store-random", "ckpt": ckpt, "ih": ih, "mode": mode})
-	r := &c08Run{w: w, run: run, pool: pool}
+	disc := rng.Intn(2) == 0
+	w.emit(c08M{"ev": "Reset", "run": run, "kind": "store-random", "ckpt": ckpt, "ih": ih, "mode": mode, "discard": disc})
+	r := &c08Run{w: w, run: run, pool: pool, disc: disc}
 	if !r.genesis(gen, ih, mode) {
 		return
 	}
@@ -409,6 +491,10 @@ func c08RandomStore(w *c08Writer, run int, pool *c08Pool, rng *rand.Rand) {
 				batch = append(batch, c08Change{A: a, P: p})
 			}
 		}
-		r.apply(batch)
+		cpu := int64(0)
+		if rng.Intn(6) == 0 {
+			cpu = 2000000 + int64(rng.Intn(1000))
+		}
+		r.apply(batch, rng.Intn(3) == 0, cpu)
 	}
 }
